@@ -8,6 +8,7 @@ CONSTANTS
   WithFail = TRUE
   WithUninj = FALSE
   WithGc = FALSE
+  WithRehs = TRUE
   TruncK = {1, 60, 128}
   BUG_ConnectLeak = FALSE
   BUG_PacketBindLeak = FALSE
@@ -18,6 +19,7 @@ CONSTANTS
   BUG_TimerRevive = FALSE
   BUG_AdapterRawClose = FALSE
   BUG_EarlyDeregister = FALSE
+  BUG_WsResetLeak = FALSE
   BUG_SocketNonblockLeak = TRUE
   BUG_AcceptLeak = TRUE
 INVARIANTS TypeOK Agree
